@@ -22,6 +22,8 @@ def gen_float(rng, finite):
 
 
 def gen_value(spec, rng, config, name=''):
+    if hasattr(spec, 'gen'):
+        return spec.gen(rng, config)
     if isinstance(spec, Int):
         if spec.conc is not None:
             return {'k': 'int', 'v': spec.conc}
@@ -65,6 +67,8 @@ def gen_value(spec, rng, config, name=''):
         return {'k': 'record', 'cls': spec.cls, 'fields': {f: gen_value(x, rng, config, f) for f, x in spec.fields.items()}}
     if isinstance(spec, Fn):
         return {'k': 'func', 'name': spec.name}
+    if type(spec).__name__ == 'NoneSort':
+        return {'k': 'none'}
     raise rp.ReplayError(f'no generator for sort {type(spec).__name__}')
 
 
@@ -87,14 +91,18 @@ def call_batch(target, list_of_args, py_func=False, repo=None, timeout=600):
     return json.loads(p.stdout)['results']
 
 
-def search(contract, config, n, seed, max_tries_factor=30):
+def search(contract, config, n, seed, max_tries_factor=30, budget_s=None):
     """returns dict(evaluated=int, witness=None|{input,native,check})"""
     if contract.target.startswith('<abstract>'):
         return {'evaluated': 0, 'witness': None, 'generated': 0}
-    rng = random.Random(seed * 7919 + hash(contract.target) % 1000)
+    import time as _t
+    t_start = _t.time()
+    rng = random.Random(f'{seed}/{contract.target}')
     good = []
     tries = 0
     while len(good) < n and tries < n * max_tries_factor:
+        if budget_s is not None and _t.time() - t_start > budget_s / 2 and good:
+            break
         tries += 1
         try:
             args = gen_inputs(contract, config, rng)
@@ -112,6 +120,8 @@ def search(contract, config, n, seed, max_tries_factor=30):
     for args, native in zip(good, results):
         if native.get('input_error'):
             continue
+        if budget_s is not None and evaluated >= 2 and _t.time() - t_start > budget_s:
+            break
         try:
             chk = rp.check_concrete(contract, config, args, native)
         except Exception as e:
